@@ -2,7 +2,9 @@
 
 package xbinary
 
-// C16: decoders are total. Every byte of the input and its length are symbolic.
+// C16: decoders are total. Every byte of the input and its length are symbolic:
+// no panic on any path; on success 1 <= consumed <= len(input) and the result is the decoded
+// sub-range (or a copy of it); on failure consumed == 0.
 
 func zzC16Bytes() {
 	n := vRange("n", 0, vParam("N"))
@@ -16,11 +18,93 @@ func zzC16Bytes() {
 	}
 	vAssert(c >= 1 && c <= n, "consumed outside the input")
 	vAssert(len(res) <= c, "result longer than consumed")
-	if !newBuf && len(res) > 0 {
-		vAssert(vSameCell(res, buf), "result is not a sub-range of the input")
+	if len(res) > 0 {
+		if newBuf {
+			vAssert(!vSameCell(res, buf), "newBuf=true but result aliases the input")
+		} else {
+			vAssert(vSameCell(res, buf), "result is not a sub-range of the input")
+		}
 	}
-	// content: res == buf[c-len(res):c]
 	for i := range res {
 		vAssert(res[i] == buf[c-len(res)+i], "result bytes differ from input range")
+	}
+}
+
+func zzC16String() {
+	n := vRange("n", 0, vParam("N"))
+	buf := vBytes("buf", n)
+	newBuf := vBool("newBuf")
+	c, res, err := UnmarshalString(buf, newBuf)
+	vReach("returned")
+	if err != nil {
+		vAssert(c == 0, "error but consumed != 0")
+		vAssert(res == "", "error but non-empty string")
+		return
+	}
+	vAssert(c >= 1 && c <= n, "consumed outside the input")
+	vAssert(len(res) <= c, "result longer than consumed")
+	for i := 0; i < len(res); i++ {
+		vAssert(res[i] == buf[c-len(res)+i], "result bytes differ from input range")
+	}
+}
+
+func zzC16Uint() {
+	n := vRange("n", 0, vParam("N"))
+	buf := vBytes("buf", n)
+	c, _, err := UnmarshalUint(buf)
+	vReach("returned")
+	if err != nil {
+		vAssert(c == 0, "error but consumed != 0")
+		return
+	}
+	vAssert(c >= 1 && c <= n, "consumed outside the input")
+	// the consumed bytes are exactly the continuation run plus the terminator
+	for i := 0; i < c-1; i++ {
+		vAssert(buf[i] > 127, "consumed past a terminating byte")
+	}
+	vAssert(buf[c-1] <= 127, "last consumed byte is not a terminator")
+}
+
+func zzC16Fixed() {
+	n := vRange("n", 0, vParam("NF"))
+	buf := vBytes("buf", n)
+	switch vChoose("kind", 4) {
+	case 0:
+		c, v, err := UnmarshalByte(buf)
+		vReach("returned")
+		vAssert((err != nil) == (n < 1), "UnmarshalByte error iff input shorter than 1")
+		if err == nil {
+			vAssert(c == 1 && v == buf[0], "UnmarshalByte value")
+		} else {
+			vAssert(c == 0, "error but consumed != 0")
+		}
+	case 1:
+		c, v, err := UnmarshalUint16(buf)
+		vAssert((err != nil) == (n < 2), "UnmarshalUint16 error iff input shorter than 2")
+		if err == nil {
+			vAssert(c == 2 && v == uint16(buf[0])<<8|uint16(buf[1]), "UnmarshalUint16 value")
+		} else {
+			vAssert(c == 0, "error but consumed != 0")
+		}
+	case 2:
+		c, v, err := UnmarshalUint32(buf)
+		vAssert((err != nil) == (n < 4), "UnmarshalUint32 error iff input shorter than 4")
+		if err == nil {
+			vAssert(c == 4 && v == uint32(buf[0])<<24|uint32(buf[1])<<16|uint32(buf[2])<<8|uint32(buf[3]), "UnmarshalUint32 value")
+		} else {
+			vAssert(c == 0, "error but consumed != 0")
+		}
+	case 3:
+		c, v, err := UnmarshalUint64(buf)
+		vAssert((err != nil) == (n < 8), "UnmarshalUint64 error iff input shorter than 8")
+		if err == nil {
+			w := uint64(0)
+			for i := 0; i < 8; i++ {
+				w = w<<8 | uint64(buf[i])
+			}
+			vAssert(c == 8 && v == w, "UnmarshalUint64 value")
+		} else {
+			vAssert(c == 0, "error but consumed != 0")
+		}
 	}
 }
